@@ -14,6 +14,13 @@ CFG = {
                    "pkg/run/goroutine.go", "pkg/timestamp/scheduler.go"], "mode": "A"},
         # the snapshot pin itself: also a preemption point right after every explicit unlock (a pointer read under the lock and used after it)
         {"files": ["banyand/measure/snapshot.go", "banyand/stream/snapshot.go"], "mode": "A", "after_unlock": True},
+        # scenario sidx-concurrent: the ordered secondary index. Its snapshot pin (sidx.currentSnapshot) releases the lock in a deferred
+        # unlock inside the callee, so the preemption point "pointer read under the lock, used after it" belongs right after the CALL
+        # (after_call), in the query paths (between the pin and the part selection) and in every publication (between reading the
+        # current snapshot, Snapshot.remove() marking the inputs removable, and replaceSnapshot)
+        {"files": ["banyand/internal/sidx/sidx.go", "banyand/internal/sidx/introducer.go", "banyand/internal/sidx/query.go", "banyand/internal/sidx/merge.go",
+                   "banyand/internal/sidx/snapshot.go", "banyand/internal/sidx/part_wrapper.go", "banyand/internal/sidx/block_scanner.go"],
+         "mode": "A", "after_unlock": True, "after_call": ["currentSnapshot", "remove"]},
         # cooperative locks in the segment life cycle (as in C19): a query or writer contending for a segment lock parks instead of blocking inside the runtime
         {"files": ["banyand/internal/storage/segment.go", "banyand/internal/storage/tsdb.go", "banyand/internal/storage/rotation.go"], "mode": "B"},
     ],
